@@ -23,6 +23,58 @@ def find_scenario(r):
     return sc
 
 
+def find_directed(r):
+    """An offer that is known at one round and gone again (StopOffer / TTL expiry / reboot / connection loss) before a later
+    round, while another watched service stays unfound: the later round must search for it again."""
+    T, MS = scen.T, scen.MS
+    rep = r.choice([2, 3, 4])
+    base = r.choice([T // 8, T // 4])
+    imin = r.choice([0, 10 * MS])
+    imax = imin + r.choice([0, 50 * MS])
+    cfg = (imin, imax, 0, 0, rep, base, 0, r.choice([1, 3]), 3, 5, None, r.choice([0, 5 * MS]))
+    d0 = r.choice([imin, imax])
+    rounds = [d0]
+    for i in range(rep):
+        rounds.append(rounds[-1] + (1 << i) * base)
+    filters = [scen.SERVICES[0], scen.SERVICES[2], scen.FILTERS[5]] if r.random() < 0.5 else [scen.FILTERS[0], scen.FILTERS[3], scen.FILTERS[5]]
+    regs = [(0, (1, [3, conv.s_service(f), [0, k]])) for k, f in enumerate(filters[: r.choice([2, 3])])]
+    peers = {a: scen.Peer(a) for a in (1, 2)}
+    raw = []
+    k = r.randrange(0, rep)                       # the offer is known at round k ...
+    svc = r.choice([scen.SERVICES[0], scen.SERVICES[2]])
+    a = r.choice([1, 2])
+    t_on = max(1, rounds[k] - r.choice([1, base // 4, 5 * MS]))
+    gone_by = r.randrange(k + 1, rep + 1)         # ... and gone before round gone_by
+    lo, hi = rounds[gone_by - 1] + 1, rounds[gone_by] - 1
+    how = r.choice(["stop", "stop", "ttl", "reboot", "connlost"])
+    ttl = 3
+    if how == "ttl":
+        ttl = 1
+        if not (lo <= t_on + T <= hi):
+            how = "stop"
+            ttl = 3
+    raw.append((t_on, ("dg", a, [svc.create_offer_entry(ttl)])))
+    t_off = r.randrange(lo, hi + 1) if hi >= lo else lo
+    if how == "stop":
+        raw.append((t_off, ("dg", a, [svc.create_offer_entry(0)])))
+    elif how == "reboot":
+        raw.append((t_off, ("reboot", a, [])))
+    elif how == "connlost":
+        raw.append((t_off, ("api", [2])))
+    if r.random() < 0.3:
+        raw.append((r.randrange(1, rounds[-1] + T // 4), ("dg", r.choice([1, 2]), [scen.SERVICES[1].create_offer_entry(r.choice([1, 3]))])))
+    raw.sort(key=lambda x: x[0])
+    events = list(regs) + [(0, (1, [13]))]
+    for t, ev in raw:
+        if ev[0] == "api":
+            events.append((t, (1, ev[1])))
+        else:
+            if ev[0] == "reboot":
+                peers[ev[1]].reboot()
+            events.append((t, (0, ev[1], False, peers[ev[1]].datagram(ev[2], False))))
+    return dict(cfg=cfg, insts=[], draws=[d0] * 4, events=events, end=rounds[-1] + 2 * T, rev=r.random() < 0.3, fuel=20000)
+
+
 def run(ctx):
     r = ctx.rng
     quick = ctx.tier == "quick"
@@ -31,7 +83,7 @@ def run(ctx):
                 "model; implementation trace judged by check_C13 (liveness of offers computed by the abstract TTL-store specification)")
     ctx.assumptions = ["no unwatch during the run (a filter without listeners is still searched for: observation O2, outside the domain)"]
     n = 300 if quick else 10000
-    scs = stackprop.corpus_scenarios("C13") + [find_scenario(r) for _ in range(n)]
+    scs = stackprop.corpus_scenarios("C13") + [find_directed(r) if k % 2 else find_scenario(r) for k in range(n)]
     stackprop.run_scenarios(ctx, scs, 3013, CODES, what="find client")
 
 
